@@ -56,6 +56,9 @@ impl World {
             World::W2(e) => { e.place_order(a, side, vol, HARNESS_TRADER, Some(price)).expect("harness quote on grid"); }
         }
     }
+    fn reprice(&mut self, a: usize, id: usize, price: u32) {
+        match self { World::W1(e) => { e.modify_order(id, Some(price), None); } World::W2(e) => { e.modify_order((a, id), Some(price), None); } }
+    }
     fn cancel(&mut self, a: usize, id: usize) { match self { World::W1(e) => { e.cancel_order(id); } World::W2(e) => { e.cancel_order((a, id)); } } }
     fn step(&mut self, rng: &mut Scripted<R>) { match self { World::W1(e) => { e.step(rng); } World::W2(e) => { e.step(rng); } } }
     fn n_trades(&self, a: usize) -> usize { match self { World::W1(e) => e.get_trades().len(), World::W2(e) => e.get_trades(a).len() } }
@@ -219,7 +222,24 @@ fn main() {
 
         let mut aborted = false;
         for k in 0..steps {
-            if controlled {
+            // every other step of a controlled run moves the harness quotes by MODIFYING their prices instead of cancelling and
+            // re-placing them (the side that moves away first, one step each, so that the quotes never cross); the choice is a
+            // function of the configuration, so a run and its mirror image make the same one
+            let by_modify = controlled && !off && k > 0 && quotes.len() == 2 && one_sided[k] == 0 && one_sided[k - 1] == 0
+                && (c["agent_seed"].as_u64().unwrap() + k as u64) % 2 == 0;
+            if by_modify {
+                let m = level + sign * path[k] * tick as i64;
+                let m_prev = level + sign * path[k - 1] * tick as i64;
+                let (nb, na) = ((m - tick as i64) as u32, (m + tick as i64) as u32);
+                if m > m_prev {
+                    world.reprice(asset, quotes[1], na); world.step(&mut arng);
+                    world.reprice(asset, quotes[0], nb); world.step(&mut arng);
+                } else if m < m_prev {
+                    world.reprice(asset, quotes[0], nb); world.step(&mut arng);
+                    world.reprice(asset, quotes[1], na); world.step(&mut arng);
+                }
+                *feats.entry("price_moves_by_modification".into()).or_insert(0) += 1;
+            } else if controlled {
                 // re-quote around the imposed mid: cancel the previous quotes, place fresh ones, one step to make them live
                 if !quotes.is_empty() {
                     for q in quotes.drain(..) { world.cancel(asset, q); }
